@@ -37,7 +37,9 @@ def main():
     ap.add_argument("--nproc", default=os.environ.get("VERIF_NPROC", "16"))
     a = ap.parse_args()
     scratch = tempfile.mkdtemp(prefix="seedrun_")
-    res = {"patch": a.patch}
+    res = {"patch": a.patch,
+           "repo_commit": subprocess.run(["git", "-C", "/repo", "rev-parse", "--short", "HEAD"],
+                                         capture_output=True, text=True).stdout.strip()}
     try:
         repo = os.path.join(scratch, "repo")
         shutil.copytree("/repo", repo, ignore=shutil.ignore_patterns(".git", "__pycache__", "*.egg-info"))
